@@ -112,7 +112,7 @@ fn main() {
                 checked += 1;
             }
         }
-        // T4: the assumed specifications of <[u8]>::split / splitn / chunks (contracts/15_stdspecs.rs) on random byte strings:
+        // T4: the assumed specifications of <[u8]>::split / splitn / chunks (contracts/15_stdspecs.rs) and split_last (contracts/30_lib.rs) on random byte strings:
         // one step yields the piece before the first separator and continues after it; splitn's last piece is the whole rest;
         // chunks yields pieces of n bytes, the last one 1..=n bytes
         let mut t4 = 0usize;
@@ -151,8 +151,24 @@ fn main() {
                 t4 += 1;
             }
             assert!(off == v.len(), "chunks covers the slice");
+            // split_last (contracts/30_lib.rs): None iff empty, else (last element, everything before it)
+            match v.split_last() {
+                None => assert!(v.is_empty(), "split_last None on a non-empty slice"),
+                Some((l, r)) => assert!(!v.is_empty() && *l == v[v.len() - 1] && r == &v[..v.len() - 1], "split_last"),
+            }
+            t4 += 1;
+            // str::splitn(n, ' ') (wrapper vx_str_splitn, contracts/15_stdspecs.rs): the pieces of a str split at an ASCII char are the
+            // pieces of its bytes split at that byte; strings with multi-byte characters included
+            let alphabet = ["a", " ", "\u{e9}", "\u{4e2d}", "b", " ", "\u{1f600}", "\u{a0}"];
+            let slen = (rnd() % 8) as usize;
+            let st: String = (0..slen).map(|_| alphabet[(rnd() % 8) as usize]).collect();
+            let n = 1 + (rnd() % 3) as usize;
+            let got: Vec<&[u8]> = st.splitn(n, ' ').map(|x| x.as_bytes()).collect();
+            let want: Vec<&[u8]> = st.as_bytes().splitn(n, |b| *b == b' ').collect();
+            assert!(got == want, "str::splitn differs from the byte-level splitn");
+            t4 += 1;
         }
-        println!("stubcheck ok: {} BufReader operations on {} sequences agree with the T1 stub; {} split/splitn/chunks steps agree with the T4 stubs", checked, nseq, t4);
+        println!("stubcheck ok: {} BufReader operations on {} sequences agree with the T1 stub; {} split/splitn/chunks/split_last/str::splitn steps agree with the T4 stubs", checked, nseq, t4);
         return;
     }
     if a[1] == "policy" {
